@@ -580,16 +580,19 @@ class Node(
 
     def _run_finally(self, /, emit_ran_signal: bool, raise_run_exceptions: bool):
         super()._run_finally()
-        if self.parent is not None and self.parent.running:
+        parent_is_running = self.parent is not None and self.parent.running
+        if emit_ran_signal and parent_is_running:
+            # Queue our signals _before_ reporting that we're finished: we may be on
+            # another thread, and the parent must never see "nobody running and
+            # nothing queued" in between, or it stops waiting for what we trigger
+            self.parent.register_child_emitting(self)
+        if parent_is_running:
             self.parent.register_child_finished(self)
         if self.checkpoint is not None:
             self.save_checkpoint(self.checkpoint)
 
-        if emit_ran_signal:
-            if self.parent is None or not self.parent.running:
-                self.emit()
-            else:
-                self.parent.register_child_emitting(self)
+        if emit_ran_signal and not parent_is_running:
+            self.emit()
 
         if (
             self.failed
